@@ -18,6 +18,9 @@ enum Item {
     S(Vec<Item>),
     B(Vec<Item>),
     T(usize),
+    /// a task with n await points whose body, when it first resumes, disposes the scope it was spawned in (a task that
+    /// navigates away, or sets the signal that replaces the view it belongs to): it is aborted WHILE it is being polled
+    X(usize),
     /// the shared loading resource number n is read here (under the ambient boundary)
     U(usize),
     /// resource number n is created here (in the current scope, under the ambient boundary)
@@ -40,6 +43,7 @@ fn parse_items(s: &str) -> Option<Vec<Item>> {
         *i += 1;
         let r = match head.as_str() {
             "t" => { let n = t.get(*i)?.parse().ok()?; *i += 1; Item::T(n) }
+            "x" => { let n = t.get(*i)?.parse().ok()?; *i += 1; Item::X(n) }
             "u" => { let n = t.get(*i)?.parse().ok()?; *i += 1; Item::U(n) }
             "R" => { let n = t.get(*i)?.parse().ok()?; *i += 1; Item::R(n) }
             "G" => Item::G,
@@ -63,6 +67,7 @@ fn show_items(v: &[Item]) -> String {
         Item::S(c) => format!("(s{})", if c.is_empty() { String::new() } else { format!(" {}", show_items(c)) }),
         Item::B(c) => format!("(b{})", if c.is_empty() { String::new() } else { format!(" {}", show_items(c)) }),
         Item::T(n) => format!("(t {n})"),
+        Item::X(n) => format!("(x {n})"),
         Item::U(n) => format!("(u {n})"),
         Item::R(n) => format!("(R {n})"),
         Item::G => "(G)".into(),
@@ -116,7 +121,8 @@ fn build(w: &Rc<RefCell<World>>, items: &[Item], cur: usize, ctx: Option<usize>)
                     build(w, cs, inner, Some(b));
                 });
             }
-            Item::T(n) => {
+            Item::T(n) | Item::X(n) => {
+                let suicidal = matches!(it, Item::X(_));
                 let t = { let ww = w.borrow(); ww.task_tx.len() };
                 let mut txs = vec![];
                 let mut rxs = vec![];
@@ -125,16 +131,31 @@ fn build(w: &Rc<RefCell<World>>, items: &[Item], cur: usize, ctx: Option<usize>)
                 { let mut ww = w.borrow_mut(); ww.task_tx.push(txs); ww.task_scope.push(cur); ww.task_boundary.push(ctx); ww.task_left.push(*n); ww.task_cancelled.push(false); ww.task_res.push(None); }
                 let w2 = w.clone();
                 let n = *n;
-                create_suspense_task(async move {
+                // the number of the poll in progress: a body that disposes its own scope and runs on to await points that
+                // are ready already is still inside the SAME poll (it is not "polled after the disposal")
+                let poll_no = Rc::new(std::cell::Cell::new(0usize));
+                let pn = poll_no.clone();
+                let body = async move {
+                    let mut suicide_poll: Option<usize> = None;
                     for (i, rx) in rxs.into_iter().enumerate() {
                         let _ = rx.await;
                         let mut ww = w2.borrow_mut();
                         let left = n - 1 - i;
                         ww.polls.push((t, left));
                         let sc = ww.task_scope[t];
-                        if ww.dead_scopes[sc] { ww.polls_after_dispose.push((t, left)); }
+                        if ww.dead_scopes[sc] && suicide_poll != Some(pn.get()) { ww.polls_after_dispose.push((t, left)); }
+                        if suicidal && sc != 0 && !ww.dead_scopes[sc] {
+                            for s in 0..ww.scopes.len() { if in_subtree(&ww, sc, s) { ww.dead_scopes[s] = true; } }
+                            for t2 in 0..ww.task_scope.len() { let s2 = ww.task_scope[t2]; if ww.dead_scopes[s2] && ww.task_left[t2] > 0 { ww.task_cancelled[t2] = true; } }
+                            let h = ww.scopes[sc];
+                            suicide_poll = Some(pn.get());
+                            drop(ww);
+                            h.dispose();
+                        }
                     }
-                });
+                };
+                let mut body = Box::pin(body);
+                create_suspense_task(std::future::poll_fn(move |cx| { poll_no.set(poll_no.get() + 1); std::future::Future::poll(body.as_mut(), cx) }));
             }
             Item::U(n) => {
                 let r = w.borrow().res[n].0;
@@ -168,7 +189,7 @@ fn build(w: &Rc<RefCell<World>>, items: &[Item], cur: usize, ctx: Option<usize>)
 }
 
 fn max_res(items: &[Item]) -> usize {
-    items.iter().map(|i| match i { Item::S(c) | Item::B(c) => max_res(c), Item::U(n) | Item::R(n) => n + 1, Item::T(_) | Item::G | Item::W => 0 }).max().unwrap_or(0)
+    items.iter().map(|i| match i { Item::S(c) | Item::B(c) => max_res(c), Item::U(n) | Item::R(n) => n + 1, Item::T(_) | Item::X(_) | Item::G | Item::W => 0 }).max().unwrap_or(0)
 }
 fn declared(items: &[Item], out: &mut Vec<usize>) {
     for i in items { match i { Item::S(c) | Item::B(c) => declared(c, out), Item::R(n) => out.push(*n), _ => {} } }
@@ -641,7 +662,7 @@ fn permutations(v: &[String]) -> Vec<Vec<String>> {
 fn count(items: &[Item]) -> (usize, usize, Vec<usize>) {
     // (scopes created, boundaries, awaits per task) in creation order
     fn go(items: &[Item], s: &mut usize, b: &mut usize, t: &mut Vec<usize>) {
-        for i in items { match i { Item::S(c) => { *s += 1; go(c, s, b, t) } Item::B(c) => { *s += 1; *b += 1; go(c, s, b, t) } Item::T(n) => t.push(*n), Item::U(_) | Item::R(_) => t.push(1), Item::G | Item::W => {} } }
+        for i in items { match i { Item::S(c) => { *s += 1; go(c, s, b, t) } Item::B(c) => { *s += 1; *b += 1; go(c, s, b, t) } Item::T(n) | Item::X(n) => t.push(*n), Item::U(_) | Item::R(_) => t.push(1), Item::G | Item::W => {} } }
     }
     let (mut s, mut b, mut t) = (0, 0, vec![]);
     go(items, &mut s, &mut b, &mut t);
@@ -650,7 +671,7 @@ fn count(items: &[Item]) -> (usize, usize, Vec<usize>) {
 
 /// is the t-th task-like item (creation order) a real task (not a resource read)?
 fn items_task_is_real(items: &[Item], t: usize) -> bool {
-    fn go(items: &[Item], v: &mut Vec<bool>) { for i in items { match i { Item::S(c) | Item::B(c) => go(c, v), Item::T(_) => v.push(true), Item::U(_) | Item::R(_) => v.push(false), Item::G | Item::W => {} } } }
+    fn go(items: &[Item], v: &mut Vec<bool>) { for i in items { match i { Item::S(c) | Item::B(c) => go(c, v), Item::T(_) | Item::X(_) => v.push(true), Item::U(_) | Item::R(_) => v.push(false), Item::G | Item::W => {} } } }
     let mut v = vec![];
     go(items, &mut v);
     v.get(t).copied().unwrap_or(false)
@@ -726,11 +747,38 @@ pub fn generate(args: &Args) -> Vec<String> {
             }
         }
     }
+    // C14: tasks that dispose the scope they were spawned in when they first resume (`x`): aborted while being polled;
+    // every order of the completions, alone and with one neighbouring pair back to back
+    for sh in ["(L (b (s (x 2) (t 1)) (t 1)))", "(L (s (b (x 1) (t 2))) (b (t 1)))", "(L (b (s (x 1) (b (t 1) (s (x 2)))) (t 1)))", "(L (s (x 2) (s (t 1))) (b (s (x 1)) (t 1)))",
+               "(L (b (x 1)))", "(L (b (s (x 3))) (b (s (x 1) (x 1))))"] {
+        let items = parse_items(sh).unwrap();
+        let (_, _, tasks) = count(&items);
+        let mut evs: Vec<String> = vec![];
+        for (t, n) in tasks.iter().enumerate() { for _ in 0..*n { evs.push(format!("c{t}")); } }
+        let mut perms = permutations(&evs);
+        perms.sort(); perms.dedup();
+        for p in perms {
+            l.push(format!("async suspense {sh} {}", p.join(",")));
+            if thorough || rng.chance(1, 4) {
+                let k = rng.below(p.len() - 1);
+                let mut q = p.clone();
+                if q[k] == q[k + 1] { continue; }
+                let b = q.remove(k + 1);
+                q[k] = format!("{}+{}", q[k], b);
+                l.push(format!("async suspense {sh} {}{}", if rng.chance(1, 3) { "n," } else { "" }, q.join(",")));
+            }
+        }
+    }
     // random trees with random schedules of completions and disposals
     let n = if thorough { 60_000 } else { 2_500 };
     for _ in 0..n {
         let mut budget = 7;
-        let items = gen_items(&mut rng, 3, &mut budget);
+        let mut items = gen_items(&mut rng, 3, &mut budget);
+        // every third tree: some of the tasks dispose their own scope when they first resume
+        if rng.chance(1, 3) {
+            fn xs(items: &mut Vec<Item>, rng: &mut Rng) { for i in items.iter_mut() { match i { Item::T(n) => if rng.chance(1, 3) { *i = Item::X(*n); }, Item::S(c) | Item::B(c) => xs(c, rng), _ => {} } } }
+            xs(&mut items, &mut rng);
+        }
         let (scopes, _, tasks) = count(&items);
         let mut evs: Vec<String> = vec![];
         for (t, k) in tasks.iter().enumerate() { for _ in 0..*k { evs.push(format!("c{t}")); } }
@@ -741,7 +789,15 @@ pub fn generate(args: &Args) -> Vec<String> {
         let mut line = if evs.is_empty() { "-".to_string() } else { evs.join(",") };
         if !evs.is_empty() && rng.chance(1, 3) {
             let mut g = String::new();
-            for (i, e) in evs.iter().enumerate() { if i > 0 { g.push(if rng.chance(1, 2) { '+' } else { ',' }); } g += e; }
+            // (a task that disposes its own scope is not completed twice in one group: what a body does with await points
+            // that are ready within the poll in which it disposed its scope is its own business)
+            let has_x = show_items(&items).contains("(x ");
+            let mut in_group: Vec<&String> = vec![];
+            for (i, e) in evs.iter().enumerate() {
+                if i > 0 { if rng.chance(1, 2) && !(has_x && in_group.contains(&e)) { g.push('+'); } else { g.push(','); in_group.clear(); } }
+                in_group.push(e);
+                g += e;
+            }
             line = if rng.chance(1, 3) { format!("n,{g}") } else { g };
         }
         l.push(format!("async suspense (L {}) {}", show_items(&items), line));
